@@ -270,25 +270,25 @@ func TestC19(t *testing.T) {
 	c17Tracker = c19Tracker
 	defer func() { pooltrack.Stop(); c19Tracker, c17Tracker = nil, nil }()
 
-	runLane(s, Lane[c01Case]{Name: "c01", Journal: true, Quick: 60, Thor: 4000, Gen: func(t *rapid.T) c01Case {
+	runLane(s, Lane[c01Case]{Name: "c01", Journal: true, Quick: 60, Thor: 800, Gen: func(t *rapid.T) c01Case {
 		c := c01Gen(t)
 		c.Burst = rapid.IntRange(0, 3).Draw(t, "burst19") != 0
 		return c
 	}, Run: c19Par(3, c01Run)})
-	runLane(s, Lane[c19Burst]{Name: "burst", Journal: true, Quick: 200, Thor: 12000, Gen: c19BurstGen, Run: c19Par(3, c19BurstRun)})
-	runLane(s, Lane[c09Case]{Name: "c09", Journal: true, Quick: 60, Thor: 4000, Gen: c09Gen, Run: c19Par(3, c09Run)})
-	runLane(s, Lane[c10Case]{Name: "c10", Journal: true, Quick: 40, Thor: 3000, Gen: c10Gen, Run: c19Par(3, c10Run)})
-	runLane(s, Lane[c17Case]{Name: "c17", Journal: true, Quick: 150, Thor: 10000, Gen: c17Gen, Run: c19Par(3, c17Run)})
-	runLane(s, Lane[c18Case]{Name: "c18s", Journal: true, Quick: 60, Thor: 4000, Gen: c18Gen, Run: c19Par(3, c18ServerRun)})
-	runLane(s, Lane[c02Case]{Name: "c02", Journal: true, Quick: 30, Thor: 2500, Gen: func(t *rapid.T) c02Case {
+	runLane(s, Lane[c19Burst]{Name: "burst", Journal: true, Quick: 200, Thor: 3000, Gen: c19BurstGen, Run: c19Par(3, c19BurstRun)})
+	runLane(s, Lane[c09Case]{Name: "c09", Journal: true, Quick: 60, Thor: 800, Gen: c09Gen, Run: c19Par(3, c09Run)})
+	runLane(s, Lane[c10Case]{Name: "c10", Journal: true, Quick: 40, Thor: 500, Gen: c10Gen, Run: c19Par(3, c10Run)})
+	runLane(s, Lane[c17Case]{Name: "c17", Journal: true, Quick: 150, Thor: 300, Gen: c17Gen, Run: c19Par(3, c17Run)})
+	runLane(s, Lane[c18Case]{Name: "c18s", Journal: true, Quick: 60, Thor: 800, Gen: c18Gen, Run: c19Par(3, c18ServerRun)})
+	runLane(s, Lane[c02Case]{Name: "c02", Journal: true, Quick: 30, Thor: 400, Gen: func(t *rapid.T) c02Case {
 		c := c02Gen(t)
 		c.Burst = rapid.IntRange(0, 3).Draw(t, "burst19") != 0
 		return c
 	}, Run: c19Par(1, c02Run)})
-	runLane(s, Lane[c19CBurst]{Name: "cburst", Journal: true, Quick: 40, Thor: 3000, Gen: c19CBurstGen, Run: c19Par(1, c19CBurstRun)})
-	runLane(s, Lane[c18CCase]{Name: "c18c", Journal: true, Quick: 20, Thor: 2000, Gen: c18CGen, Run: c19Par(1, c18ClientRun)})
-	runLane(s, Lane[c11Case]{Name: "c11", Journal: true, Quick: 20, Thor: 2000, Gen: c11Gen, Run: c19Par(1, c11Run)})
-	runLane(s, Lane[c12Case]{Name: "c12", Journal: true, Quick: 30, Thor: 2500, Gen: c12Gen, Run: c19Par(1, c12Run)})
+	runLane(s, Lane[c19CBurst]{Name: "cburst", Journal: true, Quick: 40, Thor: 500, Gen: c19CBurstGen, Run: c19Par(1, c19CBurstRun)})
+	runLane(s, Lane[c18CCase]{Name: "c18c", Journal: true, Quick: 20, Thor: 300, Gen: c18CGen, Run: c19Par(1, c18ClientRun)})
+	runLane(s, Lane[c11Case]{Name: "c11", Journal: true, Quick: 20, Thor: 300, Gen: c11Gen, Run: c19Par(1, c11Run)})
+	runLane(s, Lane[c12Case]{Name: "c12", Journal: true, Quick: 30, Thor: 400, Gen: c12Gen, Run: c19Par(1, c12Run)})
 }
 
 var _ = fmt.Sprintf
